@@ -147,6 +147,12 @@ func c19Battery() [32]byte {
 	put(edwards25519.NewIdentityPoint().Bytes())
 	put(edwards25519.NewGeneratorPoint().Bytes())
 	put(edwards25519.NewScalar().Bytes())
+	// multi-scalar calls in increasing size (a stale larger scratch from an
+	// earlier call must not be able to hide behind the battery's own order)
+	put(new(edwards25519.Point).MultiScalarMult(nil, nil).Bytes())
+	put(new(edwards25519.Point).VarTimeMultiScalarMult(nil, nil).Bytes())
+	put(new(edwards25519.Point).MultiScalarMult([]*edwards25519.Scalar{g2}, []*edwards25519.Point{R}).Bytes())
+	put(new(edwards25519.Point).VarTimeMultiScalarMult([]*edwards25519.Scalar{g2}, []*edwards25519.Point{R}).Bytes())
 	put(new(edwards25519.Point).ScalarBaseMult(g).Bytes())
 	put(new(edwards25519.Point).ScalarMult(g, Q).Bytes())
 	put(new(edwards25519.Point).VarTimeDoubleScalarBaseMult(g, Q, g2).Bytes())
@@ -160,8 +166,10 @@ func c19Battery() [32]byte {
 		put(recv.ScalarBaseMult(g2).Bytes())
 		put(recv.VarTimeDoubleScalarBaseMult(eight, R, g).Bytes())
 	}
-	put(new(edwards25519.Point).MultiScalarMult(nil, nil).Bytes())
-	put(new(edwards25519.Point).VarTimeMultiScalarMult(nil, nil).Bytes())
+	three := []*edwards25519.Scalar{g, eight, g2}
+	threeP := []*edwards25519.Point{Q, R, Q}
+	put(new(edwards25519.Point).MultiScalarMult(three, threeP).Bytes())
+	put(new(edwards25519.Point).VarTimeMultiScalarMult(three, threeP).Bytes())
 	put(new(edwards25519.Point).Add(Q, R).Bytes())
 	put(new(edwards25519.Point).Subtract(Q, R).Bytes())
 	put(new(edwards25519.Point).Negate(Q).Bytes())
@@ -239,7 +247,7 @@ func c19Ops(tier string) []string {
 			ops = append(ops, fmt.Sprintf("scribble %d %d", slot, mode))
 		}
 	}
-	ops = append(ops, "heavy ScalarBaseMult", "heavy VarTimeDouble", "heavy MultiScalarMult", "heavy decode-add")
+	ops = append(ops, "heavy ScalarBaseMult", "heavy VarTimeDouble", "heavy MultiScalarMult", "heavy decode-add", "heavy VarTimeMultiScalarMult5", "heavy MultiScalarMult5")
 	return ops
 }
 
@@ -382,6 +390,15 @@ func (w *c19World) step(op string) *core.Fail {
 		case "MultiScalarMult":
 			r := alpha.MakePoint(ref.Base(), 3)
 			r.MultiScalarMult([]*edwards25519.Scalar{g, &w.S}, []*edwards25519.Point{&w.P[0], &w.P[1]})
+		case "VarTimeMultiScalarMult5", "MultiScalarMult5":
+			// a call with more terms than any call of the probe battery
+			sc := []*edwards25519.Scalar{g, &w.S, g, &w.S, g}
+			ps := []*edwards25519.Point{&w.P[0], &w.P[1], &w.P[1], &w.P[0], &w.P[0]}
+			if f[1] == "MultiScalarMult5" {
+				new(edwards25519.Point).MultiScalarMult(sc, ps)
+			} else {
+				new(edwards25519.Point).VarTimeMultiScalarMult(sc, ps)
+			}
 		default:
 			e := ref.Encode(ref.Base())
 			p, _ := new(edwards25519.Point).SetBytes(e[:])
@@ -416,6 +433,7 @@ type c19Case struct {
 }
 
 var subC19 = core.NewSub("C19/scribble-sequences", func(wk *core.Worker, c c19Case) *core.Fail {
+	c19Baseline() // reference outputs are taken before the history under test runs
 	w := newC19World()
 	for i, op := range c.Ops {
 		if f := w.step(op); f != nil {
